@@ -38,6 +38,7 @@ import Gts.Lemmas.SelShift
 import Gts.Model.MolTop
 import Gts.Bridge.Tables
 import Gts.Bridge.PanicSites
+import Gts.Lemmas.GbSafeRecord
 namespace Gts.C07
 open Gts Pars
 
@@ -251,5 +252,131 @@ example : (MolTop.asTopology ([67, 73, 82, 67, 85, 76, 65, 82])).toOption = some
     cls (MolTop.asTopology ([114, 105, 110, 103])) = 1 ∧
     (MolTop.asMolecule ([115, 115, 45, 68, 78, 65])).toOption = some ([115, 115, 45, 68, 78, 65]) ∧
     cls (MolTop.asMolecule ([100, 110, 97])) = 1 := by decide
+
+/-! ## the GenBank record scanner (`seqio.GenBankParser`, `INSDCTableParser`, the ORIGIN reader) -/
+
+open GenBank in
+/-- `INSDCTableParser("")` (with `gts.ParseLocation`, the qualifier parsers and the learning of
+unknown qualifier names), entered in ANY state whose saved positions are sorted, for ANY bytes and
+any registry: never a panic, and the final state is sorted again. -/
+theorem table_nopanic (reg : GenBank.Registry) (s : PS) (hs : Sorted s.rest.length s.stk) :
+    ((GenBank.table reg).run' s).1 ≠ .error .panic ∧
+      Sorted ((GenBank.table reg).run' s).2.rest.length ((GenBank.table reg).run' s).2.stk := by
+  obtain ⟨L, h⟩ := GenBank.exists_bound s hs
+  have := GenBank.table_safeS (L := L) reg s h
+  exact ⟨this.1, this.2.srt⟩
+
+/-- `validateOrigin(p, length)` indexes `p` without bounds checks.  For a declared length below
+10^9 and a buffer of at least `toOriginLength(length)` bytes (the reader hands it exactly that
+many) no index is out of range, whatever the bytes are. -/
+theorem validateOrigin_nopanic (p : Bytes) (length : Nat) (hL : length < 10 ^ 9)
+    (hp : (Origin.toOriginLength (length : Int)).toNat ≤ p.length) :
+    Origin.validateOrigin p (length : Int) ≠ .error .panic :=
+  Origin.validateOrigin_ne_panic p length hL (by rwa [Origin.toNat_tl] at hp)
+
+/-- the ORIGIN reader `makeGenbankOriginParser(length)` for a declared length that passed the
+range check of `GenBankParser` (`0 ≤ length`), from any sorted state with fewer than 10^9 bytes
+left, for any bytes: never a panic (not the negative `Request`, not `validateOrigin`'s indexing,
+not the slow path's `p[offset] = '\n'`), and the final state is sorted. -/
+theorem originField_nopanic (length : Int) (depth : Nat) (h0 : 0 ≤ length) (s : PS)
+    (hs : Sorted s.rest.length s.stk) (hb : ∀ f ∈ s.stk, f.length < 10 ^ 9)
+    (hlen : s.rest.length < 10 ^ 9) :
+    ((GenBank.originField length depth).run' s).1 ≠ .error .panic ∧
+      Sorted ((GenBank.originField length depth).run' s).2.rest.length
+        ((GenBank.originField length depth).run' s).2.stk := by
+  have h : Fr (10 ^ 9 - 1) [] 0 s :=
+    Fr.mk0 (fun f hf => by have := hb f hf; omega) (by omega) hs
+  have := GenBank.originField_safeS (L := 10 ^ 9 - 1) length depth h0 (by omega) s h
+  exact ⟨this.1, this.2.srt⟩
+
+/- FULL statement (the target), which is FALSE for the code as it is:
+
+     theorem genbankParser_nopanic (reg) (s : PS) (hs : Sorted s.rest.length s.stk) :
+         ((GenBank.genbankParser reg).run' s).1 ≠ .error .panic
+
+   What is missing: the bound on the input size below.  `validateOrigin` assumes that the line
+   index `fmt.Sprintf("%9d", i+1)` is nine columns wide.  For a declared length of at least
+   10^9 + 21 the last line indices have ten digits; on a WELL-FORMED block of that size every line
+   from there on is one byte longer than `toOriginLength` accounts for, and `p[offset] != '\n'`
+   (genbank_subparsers.go:404) indexes past the end of the requested buffer: a run-time panic.
+   The input needed has more than 1.2 * 10^9 bytes, so the guard is an explicit bound on the bytes
+   left; everything below it is proved for EVERY byte string. -/
+
+/-- `seqio.GenBankParser`, entered in ANY state whose saved positions are sorted (in particular
+the fresh state of a scanner) with fewer than 10^9 bytes left, for ANY bytes and any qualifier
+registry: never a panic — neither the `Trail` slice panic (LOCUS line, field names and bodies,
+`tryAllParsers` with its Push / Pop / Drop / Clear traffic, the in-place joined DEFINITION body,
+the feature table) nor one of the ORIGIN reader's — and the final state is sorted and not before
+the entry position. -/
+theorem genbankParser_nopanic_partial (reg : GenBank.Registry) (s : PS)
+    (hs : Sorted s.rest.length s.stk) (hlen : s.rest.length < 10 ^ 9) :
+    ((GenBank.genbankParser reg).run' s).1 ≠ .error .panic ∧
+      Sorted ((GenBank.genbankParser reg).run' s).2.rest.length
+        ((GenBank.genbankParser reg).run' s).2.stk ∧
+      ((GenBank.genbankParser reg).run' s).2.rest.length ≤ s.rest.length :=
+  GenBank.genbankParser_wp reg s hs hlen
+
+/-- … in particular on the fresh state of `pars.FromBytes(input)`, for EVERY byte string shorter
+than 10^9 bytes. -/
+theorem genbankParser_fresh_nopanic_partial (reg : GenBank.Registry) (input : Bytes)
+    (hlen : input.length < 10 ^ 9) :
+    ((GenBank.genbankParser reg).run' ⟨input, []⟩).1 ≠ .error .panic :=
+  (GenBank.genbankParser_wp reg ⟨input, []⟩ trivial hlen).1
+
+/- FULL statement: `theorem readAll_nopanic (reg) (input) : GenBank.readAll reg input ≠ none`;
+   missing for the same reason as above. -/
+
+/-- Scanning ANY byte stream shorter than 10^9 bytes as GenBank (record after record until the
+input is used up or a record fails) never panics. -/
+theorem readAll_nopanic_partial (reg : GenBank.Registry) (input : Bytes)
+    (hlen : input.length < 10 ^ 9) : GenBank.readAll reg input ≠ none :=
+  GenBank.parseAll_ne_none _ reg input [] hlen
+
+/-- the LOCUS length of the record that starts at `s`, as `genbankLocusParser` reads it
+(specification helper: re-reads the LOCUS line, nothing else) -/
+def declaredLength (s : PS) : Option Int :=
+  match (GenBank.locusParser.run' s).1 with
+  | .ok l => some l.length
+  | .error _ => none
+
+/-- INTERNAL CONSISTENCY: whenever `GenBankParser` returns a record, the LOCUS line was readable,
+the declared length is not negative, and the sequence returned has exactly the declared number of
+residues (`Origin.Len()`), or there is no sequence at all next to a CONTIG line.  A truncated,
+over-long or otherwise inconsistent ORIGIN block is never returned as a shortened sequence. -/
+theorem genbank_length_consistent (reg : GenBank.Registry) (s : PS) (r : GenBank.Record)
+    (reg' : GenBank.Registry) (s' : PS)
+    (h : (GenBank.genbankParser reg).run' s = (.ok (r, reg'), s')) :
+    ∃ n, declaredLength s = some n ∧ 0 ≤ n ∧
+      (r.origin.len = n ∨ (r.origin.len = 0 ∧ r.fields.contigAcc ≠ [])) := by
+  obtain ⟨l, s1, hl, h0, hc⟩ := GenBank.genbankParser_length reg s r reg' s' h
+  refine ⟨l.length, ?_, h0, hc⟩
+  unfold declaredLength
+  rw [hl]
+
+/-- a four-residue record, used below -/
+def sampleRecord : Bytes :=
+  GenBank.bs "LOCUS       X 4 bp DNA linear UNA 01-JAN-2000\nDEFINITION  d.\nORIGIN      \n        1 acgt\n//\n"
+
+/-- non-vacuity: the sample record (fresh state: sorted, 88 bytes) is accepted with `Len() = 4`
+= the declared length; with one residue missing, one too many or a negative length the same text
+is an error value (class 1), not a panic and not a shorter sequence; a bare table is read by
+`table` -/
+example : Sorted (PS.mk sampleRecord []).rest.length (PS.mk sampleRecord []).stk ∧
+    sampleRecord.length < 10 ^ 9 ∧
+    ((GenBank.genbankParser GenBank.Registry.default).run' ⟨sampleRecord, []⟩).1.toOption.map
+      (fun r => r.1.origin.len) = some 4 ∧
+    declaredLength ⟨sampleRecord, []⟩ = some 4 ∧
+    cls ((GenBank.genbankParser GenBank.Registry.default).run' ⟨GenBank.bs
+      "LOCUS       X 4 bp DNA linear UNA 01-JAN-2000\nORIGIN      \n        1 acg\n//\n", []⟩).1 = 1 ∧
+    cls ((GenBank.genbankParser GenBank.Registry.default).run' ⟨GenBank.bs
+      "LOCUS       X 4 bp DNA linear UNA 01-JAN-2000\nORIGIN      \n        1 acgta\n//\n", []⟩).1 = 1 ∧
+    cls ((GenBank.genbankParser GenBank.Registry.default).run' ⟨GenBank.bs
+      "LOCUS       X -4 bp DNA linear UNA 01-JAN-2000\nORIGIN      \n        1 acgt\n//\n", []⟩).1 = 1 ∧
+    cls ((GenBank.genbankParser GenBank.Registry.default).run' ⟨GenBank.bs
+      "LOCUS       X 4 bp DNA linear UNA 01-JAN-2000\n//\n", []⟩).1 = 1 ∧
+    (GenBank.readAll GenBank.Registry.default (sampleRecord ++ sampleRecord)).map
+      (fun r => (r.1.length, r.2.2)) = some (2, true) := by
+  refine ⟨trivial, ?_⟩
+  decide +kernel
 
 end Gts.C07
